@@ -18,6 +18,7 @@ RULE = ('random nested containers (list/tuple/dict/Dict, depth<=3) of Series and
         'indices all occur, NaN anywhere, mixed with scalars/strings/None/opaque objects; every join policy {ij, oj, lj, rj, explicit DatetimeIndex, explicit ts} x {None, ffill, bfill}; '
         'df_sync with column policies on multi-column frames; presync-decorated probe; separately collections of bare numpy arrays of different lengths; '
         'non-trivial = >=2 timeseries with neither equal nor disjoint indices, or an empty intersection, or a NaN that a fill must skip; distinct = canonical hash')
+RULE_ALSO = '; added by the coverage audit and round 8: indices carrying a frequency (several out of phase), a fill switched off at the call (method = None), column-wise presync functions over frames listing one column set in different orders'
 ASSUMPTIONS = ['fill methods on multi-column frames are claimed for row-complete frames only (each row all-NaN or NaN-free), where row-wise as-of and per-column last-non-NaN coincide',
                'column order of re-columned frames is not compared', 'pass-through leaves are non-container objects', 'containers are lists and dicts (incl. Dict) as the statement says; tuples are not searched for timeseries by df_index and are not generated',
                'numpy collections are exercised separately from pandas collections', 'exact int64 columns beyond 2**53 are used only under an inner join without fill (elsewhere pandas itself upcasts when NaN rows appear)']
